@@ -214,3 +214,47 @@ def _identity_equivalent(fn: ast.FunctionDef) -> bool:
             continue
         return False
     return bool(body)
+
+
+CORE_MODULES = ("eudoxia/executor/", "eudoxia/scheduler/", "eudoxia/workload/runtime_status.py", "eudoxia/workload/pipeline.py", "eudoxia/simulator.py",
+                "eudoxia/utils/dag.py")
+
+
+def swallowing_handlers(P: Program):
+    """`except` clauses in the simulation core that can catch an AssertionError and do not pass it on: a bare `except:`, `except Exception`,
+    `except BaseException`, `except AssertionError` (alone or in a tuple) whose body does not end in a bare `raise` / `raise <the caught name>`.
+    The refusals the properties speak of (an inadmissible decision, an illegal transition, an oversold pool, an unknown pool number) are
+    assertions of the executor layer that reach the caller only while nobody in between catches them.  Returns [(Module, handler, text)]."""
+    out = []
+    broad = {"Exception", "BaseException", "AssertionError"}
+    for m in P.modules.values():
+        if m.virtual or not m.rel.startswith(CORE_MODULES):
+            continue
+        for n in ast.walk(m.tree):
+            if not isinstance(n, ast.Try):
+                continue
+            for h in n.handlers:
+                names = []
+                t = h.type
+                if t is None:
+                    names = ["<bare>"]
+                else:
+                    for e in (t.elts if isinstance(t, ast.Tuple) else [t]):
+                        names.append(e.attr if isinstance(e, ast.Attribute) else (e.id if isinstance(e, ast.Name) else ast.unparse(e)))
+                if not (t is None or any(x in broad for x in names)):
+                    continue
+                last = h.body[-1] if h.body else None
+                reraises = isinstance(last, ast.Raise) and (last.exc is None or (h.name and isinstance(last.exc, ast.Name) and last.exc.id == h.name))
+                if reraises:
+                    continue
+                out.append((m, h, f"{m.rel}:{m.line(h)} except {', '.join(names)}"))
+    return out
+
+
+def ob_errors_propagate(ctx, num, what: str):
+    bad = swallowing_handlers(ctx.P)
+    ctx.ob(num, "K1", f"{what}: no `except` clause in the simulation core catches AssertionError / Exception / everything without re-raising "
+           "(the refusal reaches the caller)", not bad, file=bad[0][0].rel if bad else "eudoxia/executor/resource_pool.py", construct="exception handlers of the simulation core",
+           detail="; ".join(t for _, _, t in bad) if bad else "only narrow handlers (StopIteration, FileNotFoundError, TOMLDecodeError, ImportError) exist")
+    if bad:
+        ctx.obs[-1].line = bad[0][0].line(bad[0][1])
